@@ -60,7 +60,7 @@ def run(rep, tier, seed, model_ok=True, effort=1):
     from . import impl
     from bumpver import version, v1patterns, cli
     r = common.rng(seed, "c20")
-    n = (500 if tier == "quick" else 8000) * effort
+    n = (500 if tier == "quick" else 30000) * effort
     rep.rule = ("documented legacy composites and part combinations x dates 2000..2099 x build ids x tags: render -> read back -> re-render on the "
                 "implementation, `bumpver test` (result strictly greater under PEP 440, for {pycalver} also as a plain string), chains of bumps, "
                 "engine dispatch consistency between incr_dispatch / _is_valid_version / config; `update` on projects whose files carry {version} and the derived {pep440_version} / {pep440_pycalver} form for the six mapped version patterns; compile, format, parse and `test` compared with the "
